@@ -37,12 +37,15 @@ EXPLANATION = (
     'its archive from _get_file_internal. R3: every network primitive reachable from Resolver.resolve() is reachable only after check_can_download() completed. '
     'R4: apply_patch/apply_diff_files run only in _resolve inside a try whose handlers remove self.dirname and re-raise; every return of _resolve is '
     'gated by has_buildfile(). NOT decided: outcomes of run-time lookups (system state, subproject configuration), the cross product of the policy table as behaviour, '
-    'that sha256/urlopen behave as documented, KeyboardInterrupt during patching, `meson subprojects update/packagefiles` (msubprojects.py re-applies patches outside the cleanup).')
+    'that sha256/urlopen behave as documented, KeyboardInterrupt during patching, a failure of the acquisition step itself (a failing shutil.unpack_archive in _get_file / clone in _get_git leaves a partly populated directory that a later run accepts when the build file was already unpacked: outside the clause "a failed patch/diff step", printed as an information note by R4, witness in the note), '
+    '`meson subprojects update/packagefiles` (msubprojects.py re-applies patches outside the cleanup).')
 ASSUMPTIONS = ['Dependency objects are truthy; NotFoundDependency.found() is False',
                'hashlib.sha256 / os.rename / shutil.unpack_archive behave as documented',
                'git submodule update is exempt from nodownload (documented in check_can_download)',
                'loops over self.names are analysed with 0/1 iterations (the loop body is the unit)']
-TECHNIQUE = 'path-local symbolic decision tables vs reference policy; CFG guard/dominance and call-graph reachability; origin flows'
+TECHNIQUE = ('decision tables by path enumeration over canonical atoms (locals named by their reaching definition on the path), worlds of the atoms vs a '
+             'reference policy with symbolic comparison of outcomes/effects; CFG reachability/dominance incl. exception edges; interprocedural guard '
+             '(must-pass) analysis over the Resolver call graph; who-may-call; def-use origin flows.  No repository code is interpreted on values.')
 
 
 def _truth(s: str) -> Atom:
@@ -1122,8 +1125,10 @@ def r4(ctx: RuleCtx) -> None:
     acq = cfg.nodes_with_call(lambda c: S.self_method_called(c) in ('_get_file', '_get_git', '_get_hg', '_get_svn', 'copy_tree'))
     loose = [short(n.expr(), 50) for n in acq if not any(lab == 'exc' and cfg.nodes[b].kind == 'handler' for b, lab in cfg.succ[n.id])]
     if loose:
-        ctx.note(f'not armed: a failure inside {loose} leaves a partly populated self.dirname behind (no cleanup handler); '
-                 'a later run accepts it when the build file was already unpacked')
+        ctx.note(f'INFORMATION (not a violation; the clause says patch/diff): a failure inside {loose} - e.g. shutil.unpack_archive raising in _get_file - '
+                 'leaves a partly populated self.dirname behind (no cleanup handler), and a later run accepts it through the first has_buildfile() test when the '
+                 'build file was already unpacked.  Witness (probe, outside the check): tar with foo/meson.build, foo/a, foo/a/b + matching source_hash + patch_directory: '
+                 "run 1 WrapException 'failed to unpack archive', run 2 Resolver.resolve('foo') == ('subprojects/foo', 'meson'), overlay never applied")
     # who may call the steps
     n_calls = 0
     for name, m in mod.methods(R).items():
